@@ -1,1 +1,146 @@
-(* placeholder; being written *)
+(** Read-only quotes (property C20): every VIEW the property names, as a Gallina function on the
+    state of the subsystem model it belongs to.
+
+    Mirrors:
+      dex/pair/src/pair_actions/views.rs             getAmountOut, getAmountIn, getTokensForGivenPosition, getEquivalent
+      dex/pair/src/liquidity_pool.rs                  get_token_for_given_position
+      dex/farm/src/lib.rs, dex/farm-with-locked-rewards/src/lib.rs
+                                                      calculateRewardsForGivenPosition (+ require_queried: the storage
+                                                      cache it settles is dropped with the query)
+      farm-staking/farm-staking/src/lib.rs            calculateRewardsForGivenPosition (caller = the zero address)
+      farm-staking/farm-staking/src/base_impl_wrapper.rs   calculate_base_farm_rewards
+      locked-asset/energy-factory/src/unlock_with_penalty.rs  getPenaltyAmount
+      dex/price-discovery/src/phase.rs, lib.rs        getCurrentPhase, getCurrentPrice
+
+    A view is a function of the state (and, where the code reads it, the block nonce) that returns a
+    value and NO state: "quoting never changes state" is the type of these functions; on the code side
+    the harness digests contract storage around every query.
+    Each view calls the same model helper the Rust view calls (get_amount_out -> [amount_out], ...).
+    One module per subsystem, because the subsystem models reuse short names.  No proofs in this file. *)
+From MX Require Import Base.Prelude Gen.Params.
+From MX Require Model.Pair Model.Farm Model.Staking Model.Penalty Model.PriceDiscovery.
+
+(** ------------------------------------------------------------------ dex/pair *)
+Module QPair.
+Import MX.Model.Pair.
+
+(** getAmountOut(token_in, amount_in) *)
+Definition get_amount_out (p : pair) (tin ain : Z) : result Z :=
+  check (0 <? ain) else EGuard;                                   (* ERROR_ZERO_AMOUNT *)
+  if tin =? T1 then
+    check (0 <? p_r2 p) else EGuard;                              (* ERROR_NOT_ENOUGH_RESERVE *)
+    do out <- amount_out (p_fee p) ain (p_r1 p) (p_r2 p);
+    check (out <? p_r2 p) else EGuard;
+    Ok out
+  else if tin =? T2 then
+    check (0 <? p_r1 p) else EGuard;
+    do out <- amount_out (p_fee p) ain (p_r2 p) (p_r1 p);
+    check (out <? p_r1 p) else EGuard;
+    Ok out
+  else Err EGuard.                                                (* ERROR_UNKNOWN_TOKEN *)
+
+(** getAmountIn(token_wanted, amount_wanted) *)
+Definition get_amount_in (p : pair) (twant awant : Z) : result Z :=
+  check (0 <? awant) else EGuard;
+  if twant =? T1 then
+    check (awant <? p_r1 p) else EGuard;
+    amount_in (p_fee p) awant (p_r2 p) (p_r1 p)
+  else if twant =? T2 then
+    check (awant <? p_r2 p) else EGuard;
+    amount_in (p_fee p) awant (p_r1 p) (p_r2 p)
+  else Err EGuard.
+
+(** liquidity_pool.rs get_token_for_given_position: one side *)
+Definition token_for_position (p : pair) (liq reserve : Z) : Z :=
+  if p_S p =? 0 then p_S p else liq * reserve / p_S p.
+
+(** getTokensForGivenPosition(liquidity): never fails *)
+Definition get_tokens_for_given_position (p : pair) (liq : Z) : Z * Z :=
+  (token_for_position p liq (p_r1 p), token_for_position p liq (p_r2 p)).
+
+(** getEquivalent(token_in, amount_in) *)
+Definition get_equivalent (p : pair) (tin ain : Z) : result Z :=
+  check (0 <? ain) else EGuard;
+  if (p_r1 p =? 0) || (p_r2 p =? 0) then Ok 0
+  else if tin =? T1 then quote ain (p_r1 p) (p_r2 p)
+  else if tin =? T2 then quote ain (p_r2 p) (p_r1 p)
+  else Err EGuard.
+
+End QPair.
+
+(** ------------------------------------------------------------------ dex/farm, dex/farm-with-locked-rewards *)
+Module QFarm.
+Import MX.Model.Farm.
+
+(** the storage cache the query builds: StorageCache::new + generate_aggregated_rewards at the block
+    of the query.  Its Drop writes are discarded together with everything else a query writes. *)
+Definition query_cache (f : farm) (blk : Z) : result farm := settle f blk.
+
+(** calculateRewardsForGivenPosition(user, farm_token_amount, attributes) queried at block [blk].
+    Wrapper::calculate_rewards = DefaultFarmWrapper::calculate_rewards + calculate_boosted_rewards(user);
+    as everywhere in Model/Farm.v the boosted amount the weekly splitting computes for [user] in this
+    state is the input [b] (the same function, on the same storage, that claimRewards calls for its
+    caller). *)
+Definition calc_rewards (f : farm) (blk amount : Z) (a : attrs) (b : Z) : result Z :=
+  do f1 <- query_cache f blk;
+  do base <- base_reward f1 a amount;
+  Ok (base + b).
+
+End QFarm.
+
+(** ------------------------------------------------------------------ farm-staking *)
+Module QStk.
+Import MX.Model.Staking.
+
+(** FarmStakingWrapper::calculate_base_farm_rewards *)
+Definition base_rewards (s : stk) (amount arps : Z) : result Z :=
+  if arps <? s_rps s then div_chk (amount * (s_rps s - arps)) (s_dsc s) else Ok 0.
+
+Definition query_cache (s : stk) (blk : Z) : result stk := settle s blk.
+
+(** calculate_boosted_rewards(sc, &ManagedAddress::zero()): the zero address holds no position and has
+    no claim progress, so the weekly splitting pays it nothing *)
+Definition boosted_of_nobody : Z := 0.
+
+(** calculateRewardsForGivenPosition(farm_token_amount, attributes) queried at block [blk]; of the
+    attributes only reward_per_share is read *)
+Definition calc_rewards (s : stk) (blk amount arps : Z) : result Z :=
+  do s1 <- query_cache s blk;
+  do base <- base_rewards s1 amount arps;
+  Ok (base + boosted_of_nobody).
+
+(** claimRewards on a position (amount [x], reward_per_share [arps]) by a caller whose pending boosted
+    rewards are [b]: Model/Staking.v takes the paid reward as an input; here it is tied to what
+    FarmStakingWrapper::calculate_rewards computes: base(position) + boosted(caller). *)
+Definition claim (s : stk) (blk ep c x arps b : Z) : result (stk * souts) :=
+  do s1 <- settle s blk;
+  do base <- base_rewards s1 x arps;
+  sstep s (SClaim blk ep c x (base + b) b).
+
+End QStk.
+
+(** ------------------------------------------------------------------ energy-factory *)
+Module QPen.
+Import MX.Model.Penalty.
+
+(** getPenaltyAmount(token_amount, prev_lock_epochs, new_lock_epochs) = calculate_penalty_amount *)
+Definition get_penalty_amount (s : lst) (amt prev new : Z) : result Z :=
+  penalty_amount (opts s) amt prev new.
+
+(** the arguments under which the two endpoints call calculate_penalty_amount for a LOCKED token
+    with unlock epoch [e] at the current epoch: remaining epochs now, remaining epochs afterwards *)
+Definition prev_epochs (s : lst) (e : Z) : Z := e - l_now s.
+Definition new_epochs_reduce (s : lst) (le : Z) : Z := start_of_month (l_now s + le) - l_now s.
+
+End QPen.
+
+(** ------------------------------------------------------------------ price-discovery *)
+Module QPd.
+Import MX.Model.PriceDiscovery.
+
+(** getCurrentPhase *)
+Definition current_phase (s : pd) : result phase := get_current_phase (p_cfg s) (p_block s).
+(** getCurrentPrice = calculate_price *)
+Definition current_price (s : pd) : result Z := calculate_price s.
+
+End QPd.
